@@ -198,6 +198,8 @@ func NewWorld(sess []SessDef, logins []LoginDef) *World {
 			stamp := si*100 + ei
 			if si%2 == 1 {
 				stamp = si*100 + 90 - ei
+			} else if ei > 2 {
+				stamp = si*100 + 2 // ... and in even sessions time stands still from the third event on
 			}
 			var data map[string]string
 			if typ == auparse.AUDIT_LOGIN {
